@@ -15,7 +15,7 @@ import (
 
 var tokens = []string{"//", "/", ":", "...", ".", "a", "b", "ab", "all"}
 
-var uniPkgs = []string{"", "a", "a/b", "ab", "a/bb", "b"}
+var uniPkgs = []string{"", "a", "a/b", "ab", "a/bb", "b", "ab/b", "ab/a/b", "b/a"}
 var uniNames = []string{"a", "b", "ab", "all"}
 
 var universe []label.TargetLabel
